@@ -877,6 +877,10 @@ def fancy_index(I, obj, idx):
     if isinstance(idx, Ref) and idx.kind == 'clist' and idx.nd and not I.st.heap[idx] and \
             isinstance(obj, Ref) and obj.kind == 'clist' and not I.st.heap[obj]:
         return MaskedSel(obj, idx)          # empty array selected by the (empty) result of a comparison on it
+    if isinstance(idx, Ref) and idx.kind == 'clist' and isinstance(obj, Ref) and obj.kind == 'clist' and obj.nd and I.st.heap[idx] \
+            and all(numkind(k) == 'int' for k in I.st.heap[idx]) and all(numkind(v) is not None for v in I.st.heap[obj]):
+        # integer-array indexing of a 1-d numeric array with (some) symbolic indices: entry by entry
+        return I.st.alloc('clist', [getitem(I, obj, k) for k in I.st.heap[idx]], nd=True)
     raise Unsupported('fancy indexing')
 
 
@@ -1701,6 +1705,16 @@ def container_method(I, obj, name):
                     n += 1 if e else 0
                 return n
             return B(count)
+        if name == 'sort' and obj.kind == 'clist' and not any(is_list(y) for y in st.heap[obj]):
+            def sort_(I_, a, k):
+                from . import lib as _lib
+                if a or (set(k) - {'key', 'reverse'}) or (obj.nd and k):
+                    raise Unsupported('sort with options')
+                r = _lib.b_sorted(I_, [obj], k)
+                st.note_write(obj)
+                st.heap[obj] = list(st.heap[r])
+                return None
+            return B(sort_)
         if name in ('sort', 'reverse', 'remove', 'count'):
             raise Unsupported('list.%s' % name)
         if name in ('sum', 'max', 'min', 'any', 'all', 'ravel', 'flatten', 'mean') and obj.nd:
